@@ -3,6 +3,9 @@
 package geom
 
 func init() {
+	vfHarnesses["C15_shapes_zm"] = vfhC15ShapesZM
+	vfHarnesses["C05_extreme_numerals"] = vfhC05ExtremeNumerals
+	vfHarnesses["C07_decimals"] = vfhC07Decimals
 	vfHarnesses["C04_shapes"] = vfhC04Shapes
 	vfHarnesses["C05_shapes"] = vfhC05Shapes
 	vfHarnesses["C06_shapes"] = vfhC06Shapes
@@ -175,6 +178,93 @@ func vfhC07Shapes() {
 		vfAssert(ok == ct.Is3D() && (!ok || (a == zlo && b == zhi)), "the header's Z range is the range of the Z ordinates")
 		a, b, ok = env.MRange.MinMax()
 		vfAssert(ok == ct.IsMeasured() && (!ok || (a == mlo && b == mhi)), "the header's M range is the range of the M ordinates")
+	}
+	vfReach("end")
+}
+
+// The operations defined on XY only do not look at Z and M: every table
+// geometry with distinct Z and M per control point (so that coincident XY
+// locations carry different Z/M) in a symbolic coordinate type gives the same
+// Boundary, Centroid, ConvexHull, PointOnSurface, Envelope, Area, Length,
+// IsSimple/Validate verdict and DE-9IM matrix as its 2D projection.
+func vfhC15ShapesZM() {
+	g, ct := vfShapeZM()
+	g2 := g.Force2D()
+	_ = ct
+	vfAssert(ExactEquals(g.Boundary().Force2D(), g2.Boundary(), IgnoreOrder), "Boundary does not depend on Z/M (shared end points are counted by location)")
+	vfAssert(ExactEquals(g.Centroid().AsGeometry(), g2.Centroid().AsGeometry()), "Centroid does not depend on Z/M")
+	vfAssert(ExactEquals(g.ConvexHull(), g2.ConvexHull()), "ConvexHull does not depend on Z/M")
+	vfAssert(ExactEquals(g.PointOnSurface().AsGeometry(), g2.PointOnSurface().AsGeometry()), "PointOnSurface does not depend on Z/M")
+	vfAssert(g.Envelope() == g2.Envelope() && g.Area() == g2.Area() && g.Length() == g2.Length(), "Envelope, Area and Length do not depend on Z/M")
+	vfAssert((g.Validate() == nil) == (g2.Validate() == nil), "validity does not depend on Z/M")
+	m1, err1 := Relate(g, g2)
+	m2, err2 := Relate(g2, g2)
+	vfAssert(err1 == nil && err2 == nil && m1 == m2, "the DE-9IM matrix does not depend on Z/M")
+	vfReach("end")
+}
+
+// Ordinates of extreme magnitude are printed as plain decimals (no exponent) and
+// parse back bit-identically, in every coordinate position.
+func vfhC05ExtremeNumerals() {
+	vals := []float64{1e-7, 1.5e-7, 5e-324, 2.2250738585072014e-308, 1e21, 1.7976931348623157e308, 123456789012345680000, 9007199254740993, 0.000001, 1e20, -1e-300, -1e300}
+	v := vals[vfInt("value", 0, len(vals)-1)]
+	ct := vfCT("ct")
+	var c Coordinates
+	switch vfInt("slot", 0, 3) {
+	case 0:
+		c = Coordinates{XY: XY{v, 1}, Z: 2, M: 3, Type: ct}
+	case 1:
+		c = Coordinates{XY: XY{1, v}, Z: 2, M: 3, Type: ct}
+	case 2:
+		c = Coordinates{XY: XY{1, 2}, Z: v, M: 3, Type: ct}
+	default:
+		c = Coordinates{XY: XY{1, 2}, Z: 3, M: v, Type: ct}
+	}
+	g := NewPoint(c).AsGeometry()
+	txt := g.AsText()
+	for i := 0; i < len(txt); i++ {
+		vfAssert(txt[i] != 'e' && txt[i] != 'E' || i < 5, "no exponent form in the printed text")
+	}
+	back, err := UnmarshalWKT(txt)
+	vfAssert(err == nil && vfSameWKB(back, g), "parses back to the same ordinates")
+	js, err := g.MarshalJSON()
+	vfAssert(err == nil, "MarshalJSON succeeds")
+	jb, err := UnmarshalGeoJSON(js)
+	vfAssert(err == nil && vfSameWKB(jb, g.ForceCoordinatesType(ct&DimXYZ)), "GeoJSON keeps X, Y and Z bit-identical")
+	vfReach("end")
+}
+
+// TWKB with decimal ordinates that are exactly on the grid of the precision
+// (0.1, 0.3, 0.7 at precision 1; 0.25 at precision 2): the decoded ordinates are
+// the nearest float64 of those decimals again - the value is rebuilt from the
+// accumulated INTEGER, not from accumulated float deltas - along a line, across
+// the members of a multi-geometry, and for closed rings.
+func vfhC07Decimals() {
+	var wkt string
+	prec := 1
+	switch vfInt("case", 0, 4) {
+	case 0:
+		wkt = "LINESTRING(0.1 0.1,0.3 0.3,0.7 0.2,0.9 1.1)"
+	case 1:
+		wkt = "MULTIPOINT(0.1 0.2,0.3 0.6,0.7 0.7)"
+	case 2:
+		wkt = "POLYGON((0.1 0.1,0.7 0.1,0.7 0.9,0.1 0.9,0.1 0.1),(0.3 0.3,0.6 0.3,0.6 0.6,0.3 0.3))"
+	case 3:
+		wkt = "MULTILINESTRING((0.1 0.3,0.2 0.6),(0.3 0.9,1.2 0.7))"
+	default:
+		wkt, prec = "GEOMETRYCOLLECTION(POINT(0.07 0.29),LINESTRING(0.11 0.13,0.17 0.19,0.23 0.29))", 2
+	}
+	g, err := UnmarshalWKT(wkt)
+	vfAssert(err == nil, "source parses")
+	sizeHdr, bbox, closeRings := vfBool("size"), vfBool("bbox"), vfBool("close-rings")
+	twkb, err := MarshalTWKB(g, prec, vfOpts(sizeHdr, bbox, closeRings, 0, 0, nil)...)
+	vfAssert(err == nil, "marshal succeeds")
+	back, err := UnmarshalTWKB(twkb)
+	vfAssert(err == nil, "unmarshal succeeds")
+	vfAssert(ExactEquals(back, g), "ordinates on the grid of the precision come back exactly")
+	if bbox {
+		env, has, err := UnmarshalTWKBEnvelope(twkb)
+		vfAssert(err == nil && has && env.XYEnvelope == g.Envelope(), "bbox header is the envelope of the decoded geometry")
 	}
 	vfReach("end")
 }
